@@ -60,6 +60,23 @@ def make_case(seed: int, tier: str, prop: str, opts=None) -> Dict[str, Any]:
         V["cfg_api"] = V["api"] if V["api"] is not None else "1"
     elif r < 0.55:
         V["cfg_api"] = rng.choice([v for v in VERSIONS if v is not None])
+    if rng.random() < 0.35:
+        # a second in-process simulator whose class has the same *name* as the current-API stub
+        # but old signatures (or the other way round), started before or after it
+        W = {"sid": f"S{n}", "type": "time-based", "group": 0, "n_ent": 1, "meta_style": 0,
+             "transport": rng.choice(["gated", "stock"]),
+             "beh": {"bseed": rng.randrange(1 << 30), "step_sizes": [rng.choice([1, 2])]},
+             "api": rng.choice(["2.2", "2.3", "2", None]),
+             "stub": rng.choice(["old_init_alias", "old_both_alias"])}
+        if rng.random() < 0.5:
+            sims.append(W)
+        else:
+            sims.insert(0, W)
+            vi += 1
+        n += 1
+        if rng.random() < 0.6:
+            V["stub"] = "stub"
+            V["transport"] = rng.choice(["gated", "stock"])
     conns = []
     for i in range(n - 1):
         a, b = (i, i + 1) if rng.random() < 0.7 else (i + 1, i)
@@ -76,7 +93,7 @@ def make_case(seed: int, tier: str, prop: str, opts=None) -> Dict[str, Any]:
 def expected_start(V):
     v = parse(V.get("api"))
     local = V["transport"] in ("stock", "gated")
-    noncompliant = V.get("stub", "stub") in ("old_init", "old_step", "old_both")
+    noncompliant = V.get("stub", "stub") in ("old_init", "old_step", "old_both", "old_init_alias", "old_both_alias")
     if V.get("omit_type") and v >= [3]:
         return "reject"
     if local and noncompliant and v >= [3]:
@@ -138,6 +155,15 @@ def run_case(case, prop) -> Dict[str, Any]:
     elif exp == "ok" and not started:
         viols.append({"kind": "start_rejected_but_valid", "features": feats,
                       "detail": {"sim": V, "start_result": sr, "outcome": list(oc)}})
+    # every other simulator of the scenario is a valid one and must start as well
+    for s_ in sc["sims"]:
+        if s_ is V:
+            continue
+        e2 = expected_start(s_) if s_.get("stub") else "ok"
+        sr2 = next((h for h in r.hist if h[0] == "start_result" and h[1] == s_["sid"]), None)
+        if e2 == "ok" and sr2 is not None and sr2[2] != "ok":
+            viols.append({"kind": "other_simulator_rejected", "features": {"stub": s_.get("stub", "stub")},
+                          "detail": {"sim": s_, "start_result": sr2}})
     if started and exp in ("ok",):
         # ---- requests seen by the stub
         for h in r.hist:
